@@ -681,6 +681,14 @@ class BaseProperty(base.BaseObject):
         if not strict:
             return
 
+        # A strict merge extends the current values strictly: what extend would
+        # refuse has to be refused here, before anything has been merged.
+        if len(self) > 0:
+            to_add = [val for val in source.values if val not in self._values]
+            msg = self._strict_dtype_mismatch(self._convert_value_input(to_add))
+            if msg:
+                raise ValueError("odml.Property.merge: %s" % msg)
+
         if (self.dtype is not None and source.dtype is not None and
                 self.dtype != source.dtype):
             raise ValueError("odml.Property.merge: src and dest dtypes do not match!")
@@ -806,6 +814,26 @@ class BaseProperty(base.BaseObject):
 
         return self._reorder(self.parent.properties, new_index)
 
+    def _strict_dtype_mismatch(self, new_value):
+        """
+        Returns the reason why a strict extension of the current values by
+        *new_value* has to be refused, or None if the data types match.
+
+        :param new_value: list of converted input values.
+        """
+        if len(new_value) > 0 and self.dtype is not None and \
+                dtypes.infer_dtype(new_value[0]) != self.dtype:
+
+            type_check = dtypes.infer_dtype(new_value[0])
+            if not (type_check == "string" and self.dtype in dtypes.special_dtypes) \
+                    and not self.dtype.endswith("-tuple"):
+                msg = "passed value data type found "
+                msg += "(\"%s\") does not match expected dtype \"%s\"!" % (type_check,
+                                                                           self._dtype)
+                return msg
+
+        return None
+
     def extend(self, obj, strict=True):
         """
         Extend the list of values stored in this property by the passed values. Method
@@ -833,16 +861,10 @@ class BaseProperty(base.BaseObject):
             t_count = int(self._dtype.split("-")[0])
             new_value = odml_tuple_import(t_count, new_value)
 
-        if len(new_value) > 0 and strict and \
-                dtypes.infer_dtype(new_value[0]) != self.dtype:
-
-            type_check = dtypes.infer_dtype(new_value[0])
-            if not (type_check == "string" and self.dtype in dtypes.special_dtypes) \
-                    and not self.dtype.endswith("-tuple"):
-                msg = "odml.Property.extend: passed value data type found "
-                msg += "(\"%s\") does not match expected dtype \"%s\"!" % (type_check,
-                                                                           self._dtype)
-                raise ValueError(msg)
+        if strict:
+            msg = self._strict_dtype_mismatch(new_value)
+            if msg:
+                raise ValueError("odml.Property.extend: %s" % msg)
 
         if not self._validate_values(new_value):
             raise ValueError("odml.Property.extend: passed value(s) cannot be converted "
